@@ -96,6 +96,21 @@ def run(ctx: Any, prog: Program) -> None:
     env = FormEnv(rp, param_forms={})
     raises = [n for n in walk_no_nested(rp) if isinstance(n, ast.Raise)]
     if len(raises) != 1:
+        # several refusal sites (a containment decision spread over branches and helpers): nothing below can classify that, but the function can
+        # still be interpreted on the probe family - a name that leaves the root and comes back unrefused is a violation whatever the shape
+        from engine.minieval import MiniEval, Obj, Raised, Unsupported
+        outside_ = ['..', '../..', '../root_other/x', 'sub/../..', '/a', '/a/root_other/x', 'sub//../../x', './/..', 'sub/..//..', 'a//b/../../../x', '../root/../x']
+        try:
+            for nm in outside_:
+                me = MiniEval({'os': Obj(sep='/', pardir='..', curdir='.', altsep=None)}, {}, dict(raw))
+                try:
+                    me.inline(rp, [nm], {}, Obj(path='/a/root', constrain_path=True))
+                    ctx.check('C18.S1', False, fs, rp, f'_resolve_path interpreted on root \'/a/root\': the name {nm!r} leaves the root and is not refused', func='RawFileSystem._resolve_path', text='containment test')
+                    break
+                except Raised:
+                    continue
+        except Unsupported:
+            pass
         raise AnalysisError('_resolve_path: expected exactly one raise')
     # the condition under which the escape error is raised: conjunction of the tests of all enclosing ifs, with locals that are
     # assigned once from an expression substituted (so a test split into named temporaries / nested ifs is the same test)
